@@ -302,6 +302,32 @@ def random_type(rng, traits, opts=None):
     return td
 
 
+SELF_REC = None
+
+
+def add_self_recursive_field(rng, td):
+    """append `Option<Box<Self>>` to a variant: a field type that mentions the type itself but none of its parameters
+    (only for checks that never build values).  Returns the field or None."""
+    global SELF_REC
+    if td.kind == "union" or set(td.traits) & {"Copy", "Into", "Deref", "DerefMut"}:
+        return None
+    vs = [v for v in td.variants if v.style != "unit" and v.fields]
+    if not vs or not td.params:
+        return None
+    v = rng.choice(vs)
+    # the new field's default rank (isize::MIN + position) must stay free
+    if any(f.sem.get(t, {}).get("rank") == ISIZE_MIN + len(v.fields) for f in v.fields for t in ("PartialOrd", "Ord")):
+        return None
+    if SELF_REC is None:
+        from . import shapes as S
+        SELF_REC = S.Kind("SelfRec", "::core::option::Option<::std::boxed::Box<Self>>", S.ALLCAPS - {"Copy"}, 1,
+                          lambda s, sl, a: "::core::option::Option::None")
+    from . import shapes as S
+    f = S.Field("rec_self" if v.style == "named" else None, SELF_REC, len(v.fields))
+    v.fields.append(f)
+    return f
+
+
 def fname_for(v, used, rng):
     names = {f.name for f in v.fields}
     for n in FIELD_NAMES + ["z%d" % i for i in range(20)]:
